@@ -454,8 +454,8 @@ static void run(std::istringstream& is)
 
 // translator validation of the GENERATED pvAddNogrow probe loop and pvRelocateItems loop skeleton (ocaml/driver.ml `leaf move`):
 // `leaf move <kind> <log> h1 h2 ..` -- a real HashSet with identity hash and 2^log buckets; every h is added by calling the REAL private
-// pvAddNogrow<true>(*mBuckets, h, creator) directly (no growth: the table is filled until "Hash table is full"): printed = the bucket index
-// of the returned position, or F.  Then one REAL migration (Reserve): the key type logs every move construction; printed = for every item,
+// pvAddNogrow<false>(*mBuckets, h, creator) directly (no growth: the table is filled until "Hash table is full"): printed = the bucket index
+// of the returned position / GetCount() right after the call (unchanged: <false>) / GetMaxProbe of the start bucket (Open2N2 only: exact), or F.  Then one REAL migration (Reserve): the key type logs every move construction; printed = for every item,
 // in the order of its FIRST move, <old bucket index>.<old offset in GetBounds> -- the order in which pvRelocateItems visits the items.
 namespace mv {
 static std::vector<ull>* g_log = nullptr;
@@ -481,7 +481,7 @@ template<typename HB> struct Tr
 	size_t GetHashCode(const TKey& k) const noexcept { return size_t(k.v); }
 	bool IsEqual(const TKey& a, const TKey& b) const noexcept { return a.v == b.v; }
 };
-template<typename HB> static void run(size_t log, const std::vector<ull>& hv)
+template<typename HB> static void run(size_t log, const std::vector<ull>& hv, bool exactProbe)
 {
 	typedef Tr<HB> T; typedef HashSet<TKey, T, kit::MM, HashSetItemTraits<TKey, kit::MM>, SetSett> HS;
 	W() = kit::World(); g_log = nullptr;
@@ -494,8 +494,12 @@ template<typename HB> static void run(size_t log, const std::vector<ull>& hv)
 			auto creator = [h] (TKey* p) { ::new(static_cast<void*>(p)) TKey(h); };
 			try
 			{
-				auto pos = s.template pvAddNogrow<true>(*s.mBuckets, size_t(h), creator);
-				printf(" %llu", ull(HS::ConstPositionProxy::GetBucketIndex(pos)));
+				// the <false> instantiation (the one the migration uses and cxx2coq translates): mCount must stay as it is
+				auto pos = s.template pvAddNogrow<false>(*s.mBuckets, size_t(h), creator);
+				auto* bk0 = s.mBuckets; size_t sb = HS::Bucket::GetStartBucketIndex(size_t(h), bk0->GetCount());
+				printf(" %llu/%llu/", ull(HS::ConstPositionProxy::GetBucketIndex(pos)), ull(s.GetCount()));
+				if (exactProbe) printf("%llu", ull((*bk0)[sb].GetMaxProbe(bk0->GetLogCount()))); else printf("-");   // Open2N2: exact up to 255
+				++s.mCount;
 			}
 			catch (const std::runtime_error&) { printf(" F"); }
 		}
@@ -610,13 +614,13 @@ static void leaf(std::istringstream& is)
 	{
 		ull l, h; is >> k >> l; std::vector<ull> hv; while (is >> h) hv.push_back(h);
 		typedef MemPoolParams<1, 0> MP1;
-		if (k == "L1") mv::run<HashBucketLimP4<1, MP1>>(size_t(l), hv);
-		else if (k == "L2") mv::run<HashBucketLimP4<2, MP1>>(size_t(l), hv);
-		else if (k == "L4") mv::run<HashBucketLimP4<4, MP1>>(size_t(l), hv);
-		else if (k == "O1") mv::run<HashBucketOpen2N2<1>>(size_t(l), hv);
-		else if (k == "O3") mv::run<HashBucketOpen2N2<3>>(size_t(l), hv);
-		else if (k == "O8") mv::run<HashBucketOpen8>(size_t(l), hv);
-		else mv::run<HashBucketOne<>>(size_t(l), hv);
+		if (k == "L1") mv::run<HashBucketLimP4<1, MP1>>(size_t(l), hv, false);
+		else if (k == "L2") mv::run<HashBucketLimP4<2, MP1>>(size_t(l), hv, false);
+		else if (k == "L4") mv::run<HashBucketLimP4<4, MP1>>(size_t(l), hv, false);
+		else if (k == "O1") mv::run<HashBucketOpen2N2<1>>(size_t(l), hv, true);
+		else if (k == "O3") mv::run<HashBucketOpen2N2<3>>(size_t(l), hv, true);
+		else if (k == "O8") mv::run<HashBucketOpen8>(size_t(l), hv, false);
+		else mv::run<HashBucketOne<>>(size_t(l), hv, false);
 	}
 	else puts("?leaf");
 	fflush(stdout);
